@@ -11,7 +11,9 @@ The whole-program claim is not a per-function property. What is decided here is 
     unary functions cint_/csng_/cdbl_/fix_/int_/sgn_/abs_/neg/not_/len_/asc_/chr_/space_/
     hex_/oct_/mki_/mks_/mkd_/cvi_/cvs_/cvd_/str_ - numeric-only pairings are the subject of
     C02-C06, whose obligations already include "raises only <the documented BASIC error>";
-  * machine.Memory built with its documented default peek_values=None: PEEK does not crash.
+  * machine.Memory built with its documented default peek_values=None: PEEK does not crash;
+  * Interpreter._handle_break: the Break is handed on for every error position (direct mode included);
+  * Clock.time_ / Clock.date_: the C44 contracts (only Illegal function call for malformed values).
 The mechanisms named in the property that were found defective on the unchanged tree (PEEK on a
 default Session, TIME$ with a negative field, ENVIRON with NUL, RENUM with a trap before the
 range, LOAD of an empty protected file) are repaired (`fix:` commits) and their contracts live
@@ -21,6 +23,7 @@ in C01/C44/C14/C15.
 from .common import *
 from pcbasic.basic import implementation, machine
 from pcbasic.basic.base import error as err_mod
+from . import C44 as _c44
 
 PROPERTY = 'C01'
 
@@ -181,6 +184,100 @@ def t_peek_default(E):
     E.prove(not r.raised or isinstance(r.exc, ALLOWED), 'PEEK with default peek_values raises no host exception')
 
 
+def t_handle_break(E, trapping):
+    """Interpreter._handle_break (STOP, Ctrl-Break) hands on the Break itself whatever the error position:
+    in a program line, in direct mode (position -1, e.g. STOP in a handler entered from a direct
+    statement) or anywhere else."""
+    from pcbasic.basic import interpreter as itp_mod, program as program_mod
+    it = object.__new__(itp_mod.Interpreter)
+    prog = object.__new__(program_mod.Program)
+    prog.line_numbers = {10: 1, 20: 30, 110: 45, 65536: 60}
+    class _Code(object):
+        _pyvc_trusted = True
+        def skip_to(self, *a):
+            return b''
+        def tell(self):
+            return 33
+    prog.bytecode = _Code()
+    class _Parser(object):
+        redo_on_break = False
+    class _Con(object):
+        _pyvc_trusted = True
+        def write(self, s):
+            pass
+    it._program = prog
+    it.parser = _Parser()
+    it.parser.redo_on_break = E.bool('redo')
+    it._console = _Con()
+    it.input_mode = E.bool('input mode')
+    it.run_mode = E.bool('run mode')
+    it.current_statement = E.int('current statement', 0, 59)
+    it.error_handle_mode = trapping
+    it.error_num = E.int('err', 1, 255)
+    it.error_pos = E.int('error position', -1, 100)
+    it.stop_pos = None
+    e = err_mod.Break(stop=E.bool('stop'))
+    r = E.call(it._handle_break, e)
+    E.prove(r.raised and r.exc is e, 'the Break itself is handed on (no host exception)')
+    if r.raised and r.exc is e:
+        E.prove(e.err == 0, 'marked as a break')
+        if trapping:
+            # ERL after the break: start of the line the error was in, or the position itself outside the program
+            pos = it.error_pos
+            want = If(pos >= 60, pos, If(pos >= 45, 45, If(pos >= 30, 30, If(pos >= 1, 1, pos))))
+            E.prove(e.trapped_error_pos == want, 'the trapped error position is the start of its line, or itself outside any line')
+
+
+# ---------------------------------------------------------------------------
+# bounded stand-in (never counted as proved): listed direct-mode statements and program files
+# through a real Session with default arguments
+
+_STATEMENTS = [
+    b'OUT &H3CF,1', b'OUT &H3C5,2', b'OUT &H3CF,255: OUT &H3C5,0', b'PRINT PEEK(4073)', b'POKE 4073,1', b'PRINT PEEK(4588)',
+    b'POKE 4588,255', b'DEF SEG=&H1000: PRINT PEEK(4073)', b'BSAVE "A:X",0,5000', b'BSAVE "A:X",0,100: BLOAD "A:X",4073',
+    b'PRINT VARPTR(#"")', b'PRINT VARPTR(#"A")', b'PRINT VARPTR(#1)', b'PRINT VARPTR(#0)', b'PRINT VARPTR(#255)', b'PRINT VARPTR(#256)',
+    b'PRINT VARPTR(#-1)', b'DEF SEG=&HB700: POKE 0,65: PRINT PEEK(0)', b'DEF SEG=&HA000: POKE 0,65: PRINT PEEK(0)',
+    b'PRINT PEEK(-1)', b'POKE -1,1', b'PRINT PEEK(65535)', b'POKE 65535,255', b'DEF SEG=&HFFFF: PRINT PEEK(65535)',
+    b'SCREEN 1: OUT &H3CF,3: OUT &H3C5,15', b'SCREEN 0: DEF SEG=&HB800: BSAVE "A:S",4090,20: BLOAD "A:S"',
+]
+
+_PROGRAMS = [
+    b'\xff\x01\x01\x0a\x00A\x1f\x01\x02\x03\x04', b'\xff\x01\x01\x0a\x00A\x1f', b'\xff\x01\x01\x0a\x00A\x1c', b'\xff\x01\x01\x0a\x00A\x1d\x01',
+    b'\xff\x01\x01\x0a\x00A\x0f', b'\xff\x01\x01\x0a\x00A\x0b', b'\xff\x01\x01\x0a\x00A\x0c\x01', b'\xff\x01\x01\x0a\x00A\x0e', b'\xff\x01\x01\x0a\x00\x0d\x01',
+    b'\xff', b'\xff\x00', b'\xff\x01', b'\xff\x01\x01\x0a', b'\xff\x01\x01\x0a\x00', b'\xff\x01\x01\x0a\x00\xff', b'\xff\x01\x01\x0a\x00\xfd', b'\xfe', b'\xfe\x01\x02\x03',
+    b'\xff' + b''.join(b'\x01\x01' + bytes([i % 256, i // 256]) + b'\x91 "' + b'A' * 200 + b'"\x00' for i in range(1, 401)),
+    b'\xff' + b''.join(b'\x01\x01' + bytes([i % 256, i // 256]) + b'\x91 "' + b'A' * 200 + b'"\x00' for i in range(1, 301)),
+]
+
+
+def t_session_e2e(E, which):
+    from pcbasic.basic import Session
+    import io, tempfile, shutil, os
+    d = tempfile.mkdtemp(prefix='pyvc-c01-')
+    out = io.BytesIO()
+    try:
+        try:
+            with Session(output_streams=out, input_streams=None, devices={b'A:': d}) as s:
+                if which < len(_STATEMENTS):
+                    what = _STATEMENTS[which]
+                    s.execute(what)
+                else:
+                    what = _PROGRAMS[which - len(_STATEMENTS)][:40]
+                    with open(os.path.join(d, 'P.BAS'), 'wb') as f:
+                        f.write(_PROGRAMS[which - len(_STATEMENTS)])
+                    s.execute(b'LOAD "A:P"')
+                    s.execute(b'LIST')
+                    s.execute(b'PRINT FRE(0)')
+                    s.execute(b'RUN')
+        except Exception as e:
+            E.prove(False, 'no host exception for %r (escaped: %s)' % (what, type(e).__name__))
+            return
+    finally:
+        shutil.rmtree(d, ignore_errors=True)
+    res = out.getvalue()
+    E.prove(b'Internal error' not in res and b'Traceback' not in res, 'no internal error for %r' % (what,))
+
+
 def _pairs():
     out = []
     for fn in _BINARY:
@@ -201,6 +298,12 @@ TASKS = [
                 if not (f == 'str_' and k in ('sng', 'dbl'))]),     # decimal conversion of floats is C07
     Task('value layer: mathematical functions', t_math, cases=[{'fn': f, 'kind': k} for f in _MATH for k in KINDS]),
     Task('Memory.peek_ (default session)', t_peek_default),
+    Task('direct statements and program files end to end (bounded)', t_session_e2e, bounded=True, samples=(1, 1),
+         cases=[{'which': i} for i in range(len(_STATEMENTS) + len(_PROGRAMS))],
+         scope='%d literal direct-mode statements (PEEK/POKE/OUT/VARPTR/BSAVE/BLOAD boundary arguments) and %d literal tokenised/protected program files (truncated tokens, oversize) through a real Session with default arguments' % (len(_STATEMENTS), len(_PROGRAMS))),
+    Task('Interpreter._handle_break', t_handle_break, cases=[{'trapping': t} for t in (True, False)]),
+    Task('Clock.time_ (exception contract, shared with C44)', _c44.t_time, cases=[{'shape': s} for s in _c44._TIME_SHAPES]),
+    Task('Clock.date_ (exception contract, shared with C44)', _c44.t_date, cases=[{'shape': s} for s in _c44._DATE_SHAPES]),
 ]
 
 ASSUMPTIONS = [
